@@ -42,7 +42,7 @@ def main():
                      "kind_free_text": "bounded stand-in and replay search on the real code (small-history / small-input enumeration against reference models); never counted as proved"}],
         "checks": checks,
         "not_applicable": na,
-        "notes": "Exit codes of ./check: 0 held, 1 VIOLATION, 2 undecided (solver unknown / unsupported construct / stale contract), 3 checker error. An obligation that was discharged on the reference tree (baseline/<ID>.json, recorded by `./check <ID> --update-baseline` on the unchanged /repo) and is not discharged in a function whose source changed is reported as VIOLATION ... no-failing-input-found (DESIGN.md §10.2); the same obligation open in an unchanged function is solver instability and stays undecided. Genuine defects found on the pinned tree were repaired by `fix:` commits in /repo and are listed as fixed in KNOWN_FINDINGS.jsonl; one unrepaired finding (F13, C02) is reported as KNOWN-FINDING.",
+        "notes": "Exit codes of ./check: 0 held, 1 VIOLATION, 2 undecided (solver unknown / unsupported construct / stale contract), 3 checker error. An obligation that was discharged on the reference tree (baseline/<ID>.json, recorded by `./check <ID> --update-baseline` on the unchanged /repo) and is not discharged in a function whose source changed is reported as VIOLATION ... no-failing-input-found (DESIGN.md §10.2); the same obligation open in an unchanged function is solver instability and stays undecided. Genuine defects found on the pinned tree were repaired by `fix:` commits in /repo and are listed as fixed in KNOWN_FINDINGS.jsonl (F1-F13); there is no unrepaired known finding.",
     }
     json.dump(man, open(os.path.join(HERE, "MANIFEST.json"), "w"), indent=1)
     import jsonschema
